@@ -26,7 +26,8 @@ def run_batch(cases, backends="vm,wasm", want_model=True, nshards=None):
         todo = list(sh)
         while todo:
             inp = "".join(json.dumps({"id": c["id"], "src": c["src"], "times": c["times"], "inputs": c["inputs"],
-                                      "scheduler": c.get("scheduler", False), "backends": backends}) + "\n" for c in todo)
+                                      "scheduler": c.get("scheduler", False), "backends": backends,
+                                      **({"path": c["path"]} if c.get("path") else {})}) + "\n" for c in todo)
             p = run([os.path.join(BIN, "runprog")], input=inp, timeout=3600)
             for l in p.stdout.splitlines():
                 f = l.split("\t")
@@ -96,6 +97,6 @@ def replay_known(known, backends="vm,wasm"):
     for k in known:
         if "src" in k:
             cases.append({"id": k["id"], "src": k["src"], "sx": k.get("sx"), "inputs": k.get("inputs", []), "times": k.get("times", 8),
-                          "scheduler": k.get("scheduler", False)})
+                          "scheduler": k.get("scheduler", False), "path": k.get("path")})
     res = run_batch(cases, backends=backends, want_model=True, nshards=1) if cases else {}
     return [(k, *res[k["id"]]) for k in known if "src" in k]
